@@ -159,6 +159,9 @@ void vk_run_case(vk::Choice& c) {
     if (!chosen) { cx.discard = true; cx.discard_why = "shape id not in this catalogue"; return; }
   }
   const ShapeDesc& sd = *chosen;
+  if (known("sender_for_hijacks_type_erasure_builtins")) {
+    for (int i = 0; i < sd.nnodes; ++i) if (sd.nodes[i].kind == K_ANY && sd.nodes[sd.nodes[i].child[0]].kind == K_SCHEDULE) { cx.discard = true; cx.discard_why = "known:sender_for_hijacks_type_erasure_builtins"; return; }
+  }
   if (known("stop_source_destroyed_in_callback")) {
     // under concurrency the operation can be completed from inside the fused source's callback by when_all/when_any/
     // stop_when internals too (not only by a leaf), so every shape with let_value_with_stop_source is in the known class
